@@ -261,24 +261,38 @@ func propC05(c *Ctx) {
 		c.Check("R5.5", "latestDependency/counts-found-dependencies", ld.Pos(), hasCount && len(scanCells) >= 3, "the query also returns how many referenced integrations have a position")
 		// found < number of registered dependencies → return position 0
 		okCmp := false
-		var missingEdges []Edge
+		var missingEdges, completeEdges []Edge
+		assumeMissing := map[ssa.Value]bool{}
 		var cmpRHS []ssa.Value
 		allInstrs(ld, func(in ssa.Instruction) {
 			b, ok := in.(*ssa.BinOp)
-			if !ok || (b.Op != token.LSS && b.Op != token.NEQ) {
-				return
-			}
-			u, ok := b.X.(*ssa.UnOp)
 			if !ok {
 				return
 			}
-			isCell := false
-			for _, cell := range scanCells {
-				if stripConv(cell) == u.X {
-					isCell = true
+			isCellLoad := func(v ssa.Value) bool {
+				u, ok := v.(*ssa.UnOp)
+				if !ok {
+					return false
 				}
+				for _, cell := range scanCells {
+					if stripConv(cell) == u.X {
+						return true
+					}
+				}
+				return false
 			}
-			if !isCell {
+			// found < expected, in any spelling: which outcome of the comparison means "a position is missing"
+			other := b.Y
+			missingWhen := true
+			switch {
+			case isCellLoad(b.X) && (b.Op == token.LSS || b.Op == token.NEQ):
+			case isCellLoad(b.X) && (b.Op == token.GEQ || b.Op == token.EQL):
+				missingWhen = false
+			case isCellLoad(b.Y) && (b.Op == token.GTR || b.Op == token.NEQ):
+				other = b.X
+			case isCellLoad(b.Y) && (b.Op == token.LEQ || b.Op == token.EQL):
+				other, missingWhen = b.X, false
+			default:
 				return
 			}
 			// right-hand side derives from destConfig.Dependencies (len or a counting helper)
@@ -297,16 +311,18 @@ func propC05(c *Ctx) {
 					}
 				}
 			}
-			walk(b.Y, 0)
+			walk(other, 0)
 			if !fromDeps {
 				return
 			}
-			cmpRHS = append(cmpRHS, b.Y)
+			cmpRHS = append(cmpRHS, other)
 			t, f := boolEdges(b)
-			if b.Op == token.NEQ || b.Op == token.LSS {
-				missingEdges = append(missingEdges, t...)
+			if !missingWhen {
+				t, f = f, t
 			}
-			_ = f
+			missingEdges = append(missingEdges, t...)
+			completeEdges = append(completeEdges, f...)
+			assumeMissing[b] = missingWhen
 		})
 		rets := returnsFrom(missingEdges)
 		okCmp = len(rets) > 0
@@ -408,6 +424,27 @@ func propC05(c *Ctx) {
 			c.Check("R5.5", "latestDependency/expected-count-is-number-of-dependencies", ld.Pos(), verdict, detail)
 		}
 		c.Check("R5.5", "latestDependency/missing-dependency→no-progress", ld.Pos(), okCmp, "fewer positions than registered dependencies: the step returns without loading")
+		// a position is handed back only when the count says all are there: every path to a return of a
+		// non-constant position takes the "complete" outcome of the comparison (a conjunct in front of the
+		// comparison – "already seen them all once" – lets the step through while a position is missing)
+		if len(assumeMissing) > 0 {
+			// suppose the comparison says "missing" wherever it is evaluated: no position may then come back
+			cuts := newCuts().addEdges(completeEdges).closeBoolPhisWith(ld, assumeMissing)
+			nr := 0
+			for _, r := range returnsOf(ld) {
+				vals := returnValues(r)
+				if len(vals) == 0 {
+					continue
+				}
+				if _, isConst := stripConv(vals[0]).(*ssa.Const); isConst {
+					continue
+				}
+				nr++
+				leak, path := reach(entrySite(ld), isInstr(r), cuts)
+				c.Check("R5.5", fmt.Sprintf("latestDependency/position-return#%d-only-when-all-found", nr), r.Pos(), !leak,
+					"a dependency position is returned only on the outcome found >= expected of the count comparison"+suffix(pathIf(leak, path)))
+			}
+		}
 	}
 
 	// ---- R5.3 ---------------------------------------------------------
